@@ -29,7 +29,7 @@ MAX_PAR = int(os.environ.get('VERIF_JOBS', '14'))
 CRATES = {
     'ext': dict(cwd=os.path.join(VERIF, 'kani', 'ext'), args=['--lib'], mod='proofs_ext'),
     'profiles': dict(cwd=REPO, args=['-p', 'precis-profiles', '--lib'], mod='bidi::pv::proofs_profiles'),
-    'tools': dict(cwd=REPO, args=['-p', 'precis-tools', '--lib'], mod='pv::proofs_tools'),
+    'tools': dict(cwd=REPO, args=['-p', 'precis-tools', '--lib'], mod='generators::ucd_generator::pv::proofs_tools'),
 }
 
 
@@ -93,12 +93,16 @@ def prepare(crates_needed):
     os.makedirs(REPLAYS, exist_ok=True)
     os.makedirs(EVID, exist_ok=True)
     t0 = time.time()
-    tmp = GEN + '.tmp'
+    import fcntl
+    lockf = open(os.path.join(VERIF, 'build', '.prepare.lock'), 'w')
+    fcntl.flock(lockf, fcntl.LOCK_EX)     # concurrent ./check invocations share build/gen
+    tmp = GEN + '.tmp.%d' % os.getpid()
     shutil.rmtree(tmp, ignore_errors=True)
     r = subprocess.run([sys.executable, os.path.join(VERIF, 'oracle', 'gen.py'), tmp],
                        env=dict(os.environ, PRECIS_REPO=REPO), capture_output=True, text=True)
     if r.returncode != 0:
         log('oracle generation failed:\n' + r.stdout + r.stderr)
+        lockf.close()
         return None
     for f in os.listdir(tmp):
         with open(os.path.join(tmp, f)) as fh:
@@ -143,6 +147,7 @@ def prepare(crates_needed):
         with open(stamp, 'w') as f:
             f.write(hsh)
     meta['prepare_s'] = round(time.time() - t0, 2)
+    lockf.close()
     return meta
 
 
@@ -441,7 +446,7 @@ def crate_available(crate):
     if crate == 'profiles':
         return 'PRECIS_VERIF_DIR' in open(os.path.join(REPO, 'precis-profiles', 'src', 'bidi.rs')).read()
     if crate == 'tools':
-        return 'PRECIS_VERIF_DIR' in open(os.path.join(REPO, 'precis-tools', 'src', 'lib.rs')).read()
+        return 'PRECIS_VERIF_DIR' in open(os.path.join(REPO, 'precis-tools', 'src', 'generators', 'ucd_generator.rs')).read()
     return True
 
 
@@ -488,6 +493,12 @@ def conclude(pid, tier, seed, results, meta, t0):
                     continue
                 inconclusive.append('%s: reachability witness not satisfied (%s): %s' % (h.name, c['status'], c['desc']))
         failed = [c for c in others if c['status'] not in ('SUCCESS', 'UNREACHABLE')]
+        unwind_fail = [c for c in failed if c['status'] == 'FAILURE' and classify_check(c) == 'unwind']
+        if unwind_fail:
+            # once an unwinding assertion fails Kani reports every other check as UNDETERMINED: one line is enough
+            inconclusive.append('%s: unwinding assertion failed (%s): the unwind bound of the harness is too small for this code'
+                                % (h.name, '; '.join('%s %s' % (c['id'], c['desc']) for c in unwind_fail[:3])))
+            failed = [c for c in failed if c['status'] == 'FAILURE' and classify_check(c) in ('property', 'safety')]
         for c in failed:
             kind = classify_check(c)
             if c['status'] != 'FAILURE':
